@@ -764,8 +764,8 @@ class XMLResource(XMLResourceLoader):
         :return: a dictionary for mapping namespace prefixes to full URI.
         """
         namespaces = get_namespace_map(namespaces)
+        descendants = self.iter()
         try:
-            descendants = self.iter()
             root = next(descendants)
             if root in self._xmlns:
                 update_namespaces(namespaces, self._xmlns[root], True)
@@ -781,6 +781,8 @@ class XMLResource(XMLResourceLoader):
             return namespaces  # a lazy resource with malformed XML data
         else:
             return namespaces
+        finally:
+            descendants.close()  # a lazy iteration holds a lock: don't wait for GC
 
     def get_locations(self, locations: Optional[LocationsType] = None,
                       root_only: bool = True) -> NormalizedLocationsType:
